@@ -93,8 +93,8 @@ def expected_rets(case):
             out.append(["ret", "unit"])
         elif name in ("foreach", "enumforeach", "fold", "values", "idsvalues"):
             cnt = int(toks[1]) if name in ("foreach", "enumforeach", "fold") else 1
-            if any(t.startswith("panic=") for t in toks):
-                raise Unsupported("closure panic")
+            if any(t.startswith("panic=") or t == "pull" for t in toks):
+                raise Unsupported("closure panic / closure that pulls")
             if cnt == 0:
                 out.append(["panic", "chunksize"]); break
             total = 0
